@@ -397,7 +397,7 @@ pub fn run_c05(ctx: &Ctx) -> ! {
     let mut rep = Report::new(
         ctx,
         "model_checking",
-        "inputs: curated short messages (every outcome class: Ok with/without payload, InvalidTag, InvalidCollection, short-value InvalidData, UnexpectedEof at every primitive), the D-corpus, the tag x length grid, every byte string of <= 1 (2) bytes after a header, every token sequence of <= 3 (4) tokens; schedules: EVERY composition of every short message into chunks (2^(n-1)), uniform chunk sizes 1..n in three readiness modes, every 1-cut (and 2-cut) composition with every readiness pattern (0, 1 immediate, 1 deferred, 2 mixed) before each boundary and a deferred not-ready before the first byte, one spurious re-poll at every poll number; both entry points; the future is polled by a hand-written executor that owns every wake-up. every (offset, error kind) fault incl. WouldBlock and InvalidData on the short inputs in three delivery variants; Oracle: async outcome (content + payload | InvalidTag(t) | InvalidCollection | Io(kind)) == blocking outcome on the same input (and the same fault); no lost wake-up; bounded polls. states = distinct (bytes delivered, not-ready answers, polls) triples; transitions = poll_read calls answered; non-trivial = schedule with more than one chunk or a not-ready answer",
+        "inputs: curated short messages (every outcome class: Ok with/without payload, InvalidTag, InvalidCollection, short-value InvalidData, UnexpectedEof at every primitive), the D-corpus, the tag x length grid, every byte string of <= 1 (2) bytes after a header, every token sequence of <= 3 (4) tokens, messages with 70 .. 33 000-octet names / texts / languages / member names made of multi-octet characters at every alignment (whole and cut inside a character); schedules: EVERY composition of every short message into chunks (2^(n-1)), uniform chunk sizes 1..n in three readiness modes, every 1-cut (and 2-cut) composition with every readiness pattern (0, 1 immediate, 1 deferred, 2 mixed) before each boundary and a deferred not-ready before the first byte, one spurious re-poll at every poll number; both entry points; the future is polled by a hand-written executor that owns every wake-up. every (offset, error kind) fault incl. WouldBlock and InvalidData on the short inputs in three delivery variants; Oracle: async outcome (content + payload | InvalidTag(t) | InvalidCollection | Io(kind)) == blocking outcome on the same input (and the same fault); no lost wake-up; bounded polls. states = distinct (bytes delivered, not-ready answers, polls) triples; transitions = poll_read calls answered; non-trivial = schedule with more than one chunk or a not-ready answer",
     );
     rep.assume("equal panics on both sides are not a C05 violation (C02 owns panics)");
     let tier = ctx.tier;
@@ -813,7 +813,7 @@ pub fn run_c06(ctx: &Ctx) -> ! {
     let mut rep = Report::new(
         ctx,
         "model_checking",
-        "well-formed messages (D-corpus + curated short ones) x payload {none, [03], IPP look-alike, 70 000 patterned bytes, 1 MiB + 64 KiB + 1 for two inputs} x read fragmentations of the header+attributes section (whole = read-ahead possible; uniform sizes 1..64; every 1-cut; every 2-cut for short messages; EVERY composition for messages <= 16 (21) bytes) x for the blocking reader Err(Interrupted) before each chunk and twice x for the async reader a not-ready answer before each chunk x entry points parse / parse_parts x both parsers. A monitor inside the scripted source records bytes delivered and the furthest offset any read ever ASKED for at the moment parse returns. Oracle: delivered == |header+attributes| exactly, nothing requested beyond it, payload read afterwards is byte-identical, content equals the whole-delivery result. states = distinct (input, number of chunks, interrupts / readiness mode) triples; transitions = read calls answered; non-trivial = more than one chunk",
+        "well-formed messages (D-corpus + curated short ones) x payload {none, [03], IPP look-alike, 70 000 patterned bytes, 1 MiB + 64 KiB + 1 for two inputs} x read fragmentations of the header+attributes section (whole = read-ahead possible; uniform sizes 1..64; every 1-cut; every 2-cut for short messages; EVERY composition for messages <= 16 (21) bytes) x for the blocking reader Err(Interrupted) before each chunk and twice x for the async reader a not-ready answer before each chunk x entry points parse / parse_parts x both parsers; plus the document of a parsed message taken as IppPayload and read through the OTHER interface (async-parsed -> std::io::Read, blocking-parsed -> AsyncRead) while the source keeps fragmenting and answering not-ready / Interrupted after the end tag. A monitor inside the scripted source records bytes delivered and the furthest offset any read ever ASKED for at the moment parse returns. Oracle: delivered == |header+attributes| exactly, nothing requested beyond it, payload read afterwards is byte-identical, content equals the whole-delivery result. states = distinct (input, number of chunks, interrupts / readiness mode) triples; transitions = read calls answered; non-trivial = more than one chunk",
     );
     let tier = ctx.tier;
     let limit = tier.pick(16usize, 21usize);
@@ -1042,7 +1042,7 @@ pub fn run_c07(ctx: &Ctx) -> ! {
     let mut rep = Report::new(
         ctx,
         "fault_enumeration",
-        "for every well-formed message of the D-corpus (+ curated short ones; thorough: + the bounded grammar-tree corpus), both parsers, both entry points: EVERY cut 0 <= k < |header+attributes| (source reports end-of-stream after k bytes) and EVERY single fault (offset, kind) with kind in {ConnectionReset, ConnectionAborted, TimedOut, BrokenPipe, UnexpectedEof, PermissionDenied, Other, + WouldBlock for the blocking reader}, in two delivery variants (prefix in one chunk / one byte at a time). Oracle: Err(IoError(UnexpectedEof)) for a cut, Err(IoError(injected kind)) for a fault; never Ok, never a partial result, never a panic. distinct = (message, offset, fault, variant, parser, entry); non-trivial = offset > 0",
+        "with a logger installed that evaluates every log statement (as in an application with logging enabled): for every well-formed message of the D-corpus (+ curated short ones, + messages whose names / texts / languages / member names are 70 .. 300 octets of multi-octet characters at every alignment; thorough: + the bounded grammar-tree corpus), both parsers, both entry points: EVERY cut 0 <= k < |header+attributes| (source reports end-of-stream after k bytes) and EVERY single fault (offset, kind) with kind in {ConnectionReset, ConnectionAborted, TimedOut, BrokenPipe, UnexpectedEof, PermissionDenied, Other, + WouldBlock for the blocking reader}, in two delivery variants (prefix in one chunk / one byte at a time). Oracle: Err(IoError(UnexpectedEof)) for a cut, Err(IoError(injected kind)) for a fault; never Ok, never a partial result, never a panic. distinct = (message, offset, fault, variant, parser, entry); non-trivial = offset > 0",
     );
     let tier = ctx.tier;
     let mut msgs: Vec<(String, Vec<u8>)> = vec![];
